@@ -38,6 +38,18 @@ CLAIMED = {
          "300k (quick) / 5M (thorough) histories of up to 12 operations over the whole Time API incl. operators, setters, offsets, conversion from DateTime and parse(format); reference state = (ns mod 24 h, offset); thorough enumerates all 86 400 seconds x 4 sub-second values x 100+ single operations",
          "as_offset on a value that already carries an offset is treated as unspecified and skipped; a parse(format(..)) refusal is left to C12",
          "DESIGN.md 4 C08"),
+ "C09": ("seeded random search against a local-field model (apply offset, edit one field, remove offset)",
+         "2.3M (quick) / 45M (thorough) (instant, offset, operation, candidate) cases over all 10 setters and 9 clears on DateTime, Date and Time with offsets biased to make the local date differ from the UTC date; all 11 getters of the result, the offset and the instant compared with the model; invalid candidates must give OutOfRange",
+         "sub-second setter ranges taken from the getter docs/error messages (0..=999, 0..=999_999, 0..=999_999_999), the setter doc sentences '0..=100...' being treated as typos; targets within 2 days of a range end skipped as unspecified",
+         "DESIGN.md 4 C09"),
+ "C10": ("enumeration of the offset axis (every 61st offset quick, all 172 799 thorough) x fixed instants + seeded random search against the local-field model",
+         "set_offset keeps timestamp/instant/equality/order/all differences and shifts every getter and the formatted rendering by the offset; as_offset keeps the fields and moves the instant; Offset constructors accept exactly +-23:59:59. The offset axis is finite and enumerated completely in the thorough tier",
+         "as_offset on a value already carrying an offset and instants within 2 days of the range ends are unspecified and not generated",
+         "DESIGN.md 4 C10"),
+ "C15": ("seeded boundary-dense random search over argument tuples with a validity model; metamorphic message-range consistency sweep",
+         "2M (quick) / 40M (thorough) argument tuples over all 12 constructor/setter families (29 functions), each judged for Ok <=> valid, exact value, OutOfRange, no panic, plus ~45 alternative-value probes per rejected call whose message states a range",
+         "trusts the validity models of C01/C08/C09/C10; messages without the 'must be in the range' form, or naming a receiver field rather than an argument, are not judged",
+         "DESIGN.md 4 C15"),
 }
 PLANNED = {}
 props = [json.loads(l) for l in open(os.path.join(ROOT, "properties.jsonl"))]
